@@ -1244,7 +1244,7 @@ func (c *Conn) handleDisembargo(ctx context.Context, d rpccp.Disembargo) error {
 			c.mu.Unlock()
 			return errorf("incoming disembargo: unknown answer ID %d", tgt.promisedAnswer)
 		}
-		if ans.flags&returnSent == 0 {
+		if ans.flags&resultsReady == 0 {
 			c.mu.Unlock()
 			return errorf("incoming disembargo: answer ID %d has not sent return", tgt.promisedAnswer)
 		}
